@@ -312,8 +312,9 @@ static void iauth_xquery_x_reply(const char service[], const char routing[],
         } else if ((srv->type == LOGIN)
                    || (srv->type == LOGIN_IPR)
                    || (srv->type == COMBINED)) {
+            int had_account = (req->account[0] != '\0');
             iauth_xquery_set_account(req, reply + 3);
-            if (BITSET_GET(cli->modes, IAUTH_XQUERY_HIDDEN_ONLY)) {
+            if (BITSET_GET(cli->modes, IAUTH_XQUERY_HIDDEN_ONLY) && !had_account) {
                 req->holds--;
                 log_message(iauth_xquery_log, LOG_DEBUG,
                     "release hold on %s for %s", routing, reply);
